@@ -43,6 +43,11 @@ Word2   == Word * (2 ^ WE) * Head2                    \* uint64 : uint32 = 2^32,
 
 L(a, i) == a[i + 1]                                   \* 0-based access to a 1-based tuple
 
+\* the position law behind Mul: the product of limbs i and j sits at Pos(i + j) - or, wrapped around, Bits higher than
+\* Pos(i + j - NL) (hence the factor C) - and ONE bit higher when both are odd (hence the factor 2)
+ASSUME \A i, j \in 0..(NL - 1) :
+          Pos(i) + Pos(j) = (IF i + j < NL THEN Pos(i + j) ELSE Bits + Pos(i + j - NL)) + (IF Odd(i) /\ Odd(j) THEN 1 ELSE 0)
+
 RECURSIVE ValRec(_, _)
 ValRec(a, i) == IF i >= NL THEN 0 ELSE L(a, i) * (2 ^ Pos(i)) + ValRec(a, i + 1)
 Val(a) == ValRec(a, 0)
